@@ -247,36 +247,56 @@ def mp2(ctx, R):
 
 @rule("TM1", "the ToC mask is parsed little-endian wherever a lead-in is examined", floor=1)
 def tm1(ctx, R):
+    """A ToC mask is recognised by its use: a value that is and-ed with an entry of toc_properties.  In normal form (helpers
+    inlined) the unpack calls such a value comes from are collected; their format must be a constant little-endian one."""
+    from .sym import Sym, show, alpha, collect
+    from .sem import find, W
     prog = ctx.prog
     n = 0
+    seen = set()
+    is_flag = lambda x: isinstance(x, tuple) and len(x) == 3 and x[0] == "sub" and x[1] in (("global", "toc_properties"), ("name", "toc_properties"))
     for fi in sorted(prog.functions.values(), key=lambda f: f.qual):
-        if fi.module.name not in ("reader", "tdms_segment"):
+        if fi.module.name == "writer":
             continue
-        for a in walk_body(fi.node):
-            if not isinstance(a, ast.Assign):
+        ands = [b for b in walk_body(fi.node) if isinstance(b, ast.BinOp) and isinstance(b.op, ast.BitAnd)]
+        if not ands:
+            continue
+        sy = Sym(prog, fi, fi.cls)
+        for b in ands:
+            env, _g = sy.env_at(b)
+            v = sy.expr(b, env)
+            if not collect(v, is_flag):
                 continue
-            calls = [c for c in ast.walk(a.value) if isinstance(c, ast.Call) and call_name(c) in UNPACK_NAMES]
-            if not calls:
-                continue
-            names = set()
-            for t in a.targets:
-                names |= _names(t)
-            is_toc = any("toc" in nm.lower() for nm in names)
-            if not is_toc:
-                # compared with / stored as a toc_mask later?
-                for x in walk_body(fi.node):
-                    if isinstance(x, ast.Compare) and (names & _names(x)) and "toc_mask" in unparse(x):
-                        is_toc = True
-            if not is_toc:
-                continue
-            n += 1
-            pre, body = _format_parts(calls[0].args[0], fi)
-            lit = body if pre is None else (pre.value if isinstance(pre, ast.Constant) else None)
-            fmt_txt = unparse(calls[0].args[0])
-            good = (pre is None and isinstance(body, str) and body.startswith("<")) or (isinstance(pre, ast.Constant) and pre.value == "<")
-            R.check(good, "%s::toc mask unpack" % fi.qual, fi.where(a), "format %s (little-endian by specification)" % fmt_txt,
-                    "the ToC mask is unpacked with `%s`: the mask holds the byte-order flag itself and is always little-endian; for big-endian "
-                    "segments this value is wrong" % fmt_txt)
+            is_unpack = lambda x: isinstance(x, tuple) and len(x) == 4 and x[0] == "call" and isinstance(x[1], str) and "unpack" in x[1] and x[2]
+            found = collect(v, is_unpack)
+            if not found:
+                # the mask is a parameter here: what the callers hand in
+                from .sem import call_arg
+                for p_ in {x[1] for x in collect(v, lambda x: isinstance(x, tuple) and len(x) == 2 and x[0] == "param")}:
+                    for e in ctx.callgraph().callers(fi.qual):
+                        g = prog.functions.get(e.caller)
+                        if g is None or not isinstance(e.node, ast.Call):
+                            continue
+                        sg = Sym(prog, g, g.cls)
+                        eg, _gg = sg.env_at(e.node)
+                        a = call_arg(prog, e.node, fi, p_, sg, eg)
+                        if a is not None:
+                            found += collect(a, is_unpack)
+            for u in found:
+                fmt = u[2][0]
+                k = alpha(u)
+                if k in seen:
+                    continue
+                seen.add(k)
+                n += 1
+                key = "%s::toc mask unpack" % fi.qual
+                if fmt[0] == "const" and isinstance(fmt[1], str):
+                    R.check(fmt[1].startswith("<"), key, fi.where(b), "format %r (little-endian by specification)" % fmt[1],
+                            "the ToC mask is unpacked with %r: the mask holds the byte-order flag itself and is always little-endian; for big-endian "
+                            "segments this value is wrong" % fmt[1])
+                else:
+                    R.violation(key, fi.where(b), "the ToC mask is unpacked with the computed format `%s`: the mask holds the byte-order flag itself and is "
+                                "always little-endian" % show(alpha(fmt))[:80])
     if n < 1:
         raise AnchorMissing("ToC mask unpack sites")
 
@@ -333,14 +353,41 @@ def _svec(x, stream):
     return None
 
 
-def _lead_in_call(ctx, fi):
-    """the call of the segment metadata parser in read_metadata"""
+class _BSym(object):
+    """Sym of a helper whose parameters are bound to the caller's values (root terms)"""
+
+    def __init__(self, sy, bound):
+        self.sy, self.bound = sy, bound
+
+    def env_at(self, node):
+        return self.sy.env_at(node, bound=self.bound)
+
+    def expr(self, e, env):
+        return self.sy.expr(e, env)
+
+
+def _lead_in_site(ctx, fi):
+    """the call of the segment metadata parser on the way from read_metadata: (function holding the segment loop, call, Sym of that
+    function with its parameters bound to read_metadata's values)"""
     from .flow import resolve_call
-    for c in walk_body(fi.node):
-        if isinstance(c, ast.Call):
-            for f, _k in resolve_call(ctx.prog, fi, fi.cls, c):
-                if f.qual == "reader.TdmsReader._read_segment_metadata":
-                    return c
+    from .region import region
+    from .sem import call_chains
+    from .sym import Sym
+    prog = ctx.prog
+    for g in region(ctx, fi, depth=2):
+        if g.cls is not fi.cls:
+            continue
+        for c in walk_body(g.node):
+            if isinstance(c, ast.Call):
+                for f, _k in resolve_call(prog, g, g.cls, c):
+                    if f.qual == "reader.TdmsReader._read_segment_metadata":
+                        bound = {}
+                        if g is not fi:
+                            chains = call_chains(prog, fi, g, inline=True)
+                            if not chains:
+                                continue
+                            bound = chains[0][1]
+                        return g, c, _BSym(Sym(prog, g, g.cls), bound)
     raise AnchorMissing("reader.TdmsReader.read_metadata: call of _read_segment_metadata")
 
 
@@ -348,10 +395,8 @@ def _lead_in_call(ctx, fi):
 def co1(ctx, R):
     from .sym import Sym, simplify, eval_cond, show
     prog = ctx.prog
-    fi = prog.func("reader.TdmsReader.read_metadata")
+    fi, rc, sy = _lead_in_site(ctx, prog.func("reader.TdmsReader.read_metadata"))
     cfg = ctx.cfg(fi)
-    sy = Sym(prog, fi, fi.cls)
-    rc = _lead_in_call(ctx, fi)
     env, _g = sy.env_at(rc)
     if not rc.args:
         raise AnchorMissing("reader.TdmsReader.read_metadata: stream argument of _read_segment_metadata")
@@ -514,22 +559,32 @@ def df1(ctx, R):
     rsm = prog.func("reader.TdmsReader._read_segment_metadata")
     li = prog.func("reader.TdmsReader._read_lead_in")
     # the expected tag inside the lead-in parser, as a function of its parameters
-    sl = Sym(prog, li, li.cls, inline=True)
+    # (in the parser itself or in a helper it calls: the helper's parameters are replaced by the parser's arguments)
+    from .sem import call_chains
+    from .region import region
     tagcmp = None
-    for x in walk_body(li.node):
-        if isinstance(x, ast.Compare) and len(x.ops) == 1 and isinstance(x.ops[0], (ast.Eq, ast.NotEq)):
-            e2, _ = sl.env_at(x)
-            c = sl.expr(x, e2)
-            for side in (c[2], c[3]):
-                consts = [y for y in _leaves(side)]
-                if consts and all(y[0] == "const" and isinstance(y[1], bytes) and y[1] in (b"TDSh", b"TDSm") for y in consts):
-                    tagcmp = (x, side)
+    holder = li
+    for g in region(ctx, li, depth=2):
+        if g.module is not li.module:
+            continue
+        bindings = [{}] if g is li else [b for _gs, b in call_chains(prog, li, g, inline=True)]
+        for bound in bindings[:1]:
+            sl = Sym(prog, g, g.cls, inline=True)
+            for x in walk_body(g.node):
+                if isinstance(x, ast.Compare) and len(x.ops) == 1 and isinstance(x.ops[0], (ast.Eq, ast.NotEq)):
+                    e2, _ = sl.env_at(x, bound=bound)
+                    c = sl.expr(x, e2)
+                    for side in (c[2], c[3]):
+                        consts = [y for y in _leaves(side)]
+                        if consts and all(y[0] == "const" and isinstance(y[1], bytes) and y[1] in (b"TDSh", b"TDSm") for y in consts) and tagcmp is None:
+                            tagcmp = (x, side)
+                            holder = g
     if tagcmp is None:
         raise AnchorMissing("reader.TdmsReader._read_lead_in: comparison of the tag with TDSh/TDSm")
     x, expected = tagcmp
     flags = sorted({y[1] for y in _collect_params(expected)})
     if not flags:
-        R.violation("reader.TdmsReader._read_lead_in::expected tag", li.where(x), "the expected tag `%s` does not depend on which stream is parsed: index files would be "
+        R.violation("reader.TdmsReader._read_lead_in::expected tag", holder.where(x), "the expected tag `%s` does not depend on which stream is parsed: index files would be "
                     "rejected or data files accepted with the wrong tag" % show(expected))
         return
     flag = flags[0]
@@ -540,10 +595,10 @@ def df1(ctx, R):
                 return value
             return None
         return simplify(expected, orc)
-    R.check(tag_for(True) == ("const", b"TDSh") and tag_for(False) == ("const", b"TDSm"), "reader.TdmsReader._read_lead_in::expected tag", li.where(x),
+    R.check(tag_for(True) == ("const", b"TDSh") and tag_for(False) == ("const", b"TDSm"), "reader.TdmsReader._read_lead_in::expected tag", holder.where(x),
             "TDSh for the index stream, TDSm for the data stream", "the expected tag is %s for the index stream and %s for the data file" % (show(tag_for(True)), show(tag_for(False))))
     # the tag comparison decides raise / continue
-    cfg = ctx.cfg(li)
+    cfg = ctx.cfg(holder)
     tn = cfg.where(lambda n: n.kind == "test" and any(y is x for y in ast.walk(n.ast)))
     ok = False
     for t in tn:
@@ -551,7 +606,7 @@ def df1(ctx, R):
         succ = [m for m, k in t.succ if k == mismatch]
         r = cfg.reach(succ, follow_exc=False)
         ok = ok or (cfg.exit not in r and all(m is not cfg.exit for m in succ))
-    R.check(ok, "reader.TdmsReader._read_lead_in::tag mismatch raises", li.where(x), "a segment with another tag is rejected",
+    R.check(ok, "reader.TdmsReader._read_lead_in::tag mismatch raises", holder.where(x), "a segment with another tag is rejected",
             "a lead-in whose tag differs from the expected one is accepted")
     # the flag reaches the lead-in parser from read_metadata: value of the flag parameter as a function of read_metadata's state
     srm = Sym(prog, rsm, rsm.cls, inline=False)
@@ -579,8 +634,7 @@ def df1(ctx, R):
         return None
     e2, _ = srm.env_at(lcall)
     inner = arg_of(lcall, li, flag, srm, e2)
-    rc = _lead_in_call(ctx, rm)
-    sy = Sym(prog, rm, rm.cls)
+    _holder, rc, sy = _lead_in_site(ctx, rm)
     e3, _ = sy.env_at(rc)
     stream = sy.expr(rc.args[0], e3) if rc.args else None
     for mode in (True, False):
